@@ -627,7 +627,7 @@ impl<T: Clone + Eq + Debug + Default> WrappedBlock<T> {
         ensures //@w
             r.inv(), //@w @C02 #new_inv
             r.width == width, r.pad_blocks == pad_blocks, r.allow_overflow == allow_overflow, //@w @C15 @C11 @C02 #new_fields
-            r.text@.len() == 0, r.line.v@.len() == 0, r.word.v@.len() == 0, r.wslen == 0, r.wordlen == 0, //@w @C03 #new_empty
+            r.text@.len() == 0, r.line.v@.len() == 0, r.word.v@.len() == 0, r.wslen == 0, r.wordlen == 0, r.word.len == 0, r.line.len == 0, r.spacetag.is_none(), !r.pre_wrapped, //@w @C03 #new_empty
     {
         WrappedBlock {
             width,
